@@ -355,6 +355,52 @@ theorem jsonl_same_bytes_decoded (l : List Nat) :
     lineNorm (l ++ [10]) = lineNorm l ∧ lineNorm (l ++ [13, 10]) = lineNorm l :=
   ⟨lineNorm_rel _ l (Or.inr (Or.inl rfl)), lineNorm_rel _ l (Or.inr (Or.inr rfl))⟩
 
+/-! ## JSONLIterator with `rel_seek` (text-mode files of single-byte characters) -/
+
+/-- `_align_to_newline` puts the file ON the first line break at or after the target offset -/
+theorem align_to_newline_spec (c : List Nat) (target p : Nat) (h : alignToNewline c target = some p) :
+    target ≤ p ∧ (∃ x b', c.drop p = x :: b' ∧ bytesBreak x = true) ∧
+    ∀ x ∈ (c.drop target).take (p - target), bytesBreak x = false := by
+  unfold alignToNewline at h
+  cases hi : firstBreak (c.drop target) with
+  | none => rw [hi] at h; simp at h
+  | some i =>
+    rw [hi] at h
+    simp only [Option.map_some, Option.some.injEq] at h
+    subst h
+    obtain ⟨⟨x, b', h1, h2⟩, h3⟩ := firstBreak_spec _ i hi
+    refine ⟨by omega, ⟨x, b', ?_, h2⟩, ?_⟩
+    · rw [← h1, List.drop_drop]
+    · have : target + i - target = i := by omega
+      rw [this]; exact h3
+
+/-- forward and reverse iteration started with the same `rel_seek` share out the objects of the
+    file: what reverse mode yields (read backwards from the aligned position), reversed, followed by
+    what forward mode yields (read from there on), is what a plain forward pass yields — nothing is
+    lost or seen twice, for every block size (`ignore_errors=True`) -/
+theorem jsonl_rel_seek_partition (parse : List Nat → Except ε α) (c : List Nat) (target bs : Nat)
+    (hbs : 1 ≤ bs) (f r : List α × Option ε)
+    (hf : jsonlRelSeek parse true false bs c target = some f)
+    (hr : jsonlRelSeek parse true true bs c target = some r) :
+    (jsonlForwardT parse true c).1 = r.1.reverse ++ f.1 ∧ f.2 = none ∧ r.2 = none := by
+  unfold jsonlRelSeek at hf hr
+  cases hp : alignToNewline c target with
+  | none => rw [hp] at hf; simp at hf
+  | some p =>
+    rw [hp] at hf hr
+    simp only [Bool.false_eq_true, if_false, if_true, Option.some.injEq] at hf hr
+    subst hf hr
+    obtain ⟨_, ⟨x, b', hd, hx⟩, _⟩ := align_to_newline_spec c target p hp
+    rw [consume_ignore, consume_ignore, reverse_lines_from_position c p bs hbs,
+      List.filterMap_reverse, filterMap_linesOf, jsonl_forward_text parse c]
+    refine ⟨?_, rfl, rfl⟩
+    simp only [List.reverse_reverse]
+    rw [filterMap_rel parse _ _ (fileLinesT_rel false (c.drop p))]
+    have hc : c = c.take p ++ x :: b' := by rw [← hd, List.take_append_drop]
+    conv => lhs; rw [hc]
+    rw [filterMap_cut_at_break parse _ x b' hx, hd]
+    rfl
+
 /-! ## non-vacuity -/
 
 -- "a b<U+2028>c<CR><LF>": breaks of two kinds, ends with a break; ' 2','8' would be split by the old typo
@@ -410,5 +456,13 @@ example : strictUtf8 [195, 169, 10, 230, 151, 165] = true := by decide
 example : reverseIterLines [195, 169, 10, 230, 151, 165] 1 = [[230, 151, 165], [195, 169]] := by decide
 -- the strict codec rejects a lone surrogate (ed a0 80), the surrogatepass one accepts it
 example : strictUtf8 [237, 160, 128] = false ∧ validUtf8 [237, 160, 128] = true := by decide
+
+-- rel_seek: "3\n3\r\nx\n3" from offset 2 (inside the second record): aligned ON the CR at offset 3
+example : alignToNewline [51, 10, 51, 13, 10, 120, 10, 51] 2 = some 3 := by decide
+example : jsonlRelSeek toyParse true false 4096 [51, 10, 51, 13, 10, 120, 10, 51] 2 = some ([3], none) := by decide
+example : jsonlRelSeek toyParse true true 4096 [51, 10, 51, 13, 10, 120, 10, 51] 2 = some ([3, 3], none) := by decide
+example : (jsonlForwardT toyParse true [51, 10, 51, 13, 10, 120, 10, 51]).1 = [3, 3, 3] := by decide
+-- no line break after the target: the code's alignment loop does not end (outside the model)
+example : alignToNewline [51, 10, 51] 2 = none := by decide
 
 end C19
